@@ -62,9 +62,20 @@ Theorem parent_due_no_later_push :
     gc_parent (gcfg_at T g) = Some (pg, pn) ->
     w_err w = 0 -> idle g w = true -> now_of g w <= when ->
     (pg < length (w_gs w))%nat -> (pn < length (g_slots (gat pg w)))%nat ->
-    slot_at pn (gat pg (sched_at (length T) T g i when w)) <= clamp T pg (Z.max when (now_of pg w)) w.
+    slot_at pn (gat pg (sched_at (length T) T g i when w)) <= clamp T pg (Z.max (Z.max when (now_of pg w)) (now_of 0 w)) w.
 Proof. exact push_arms_owner. Qed.
 Print Assumptions parent_due_no_later_push.
+
+(* THE CLAMP (as repaired: to the ROOT's evaluation time): a schedule request on a nested graph, at whatever depth
+   and however stale the clocks in between, either leaves the node's slot alone or leaves it at a time that is NOT
+   BEFORE THE ENGINE'S CURRENT TIME - a child is never scheduled in the root's past. *)
+Theorem child_never_scheduled_before_root_time :
+  forall T, parents_lt T -> forall d g i when w pg pn,
+    gc_parent (gcfg_at T g) = Some (pg, pn) ->
+    let w' := sched_at (S d) T g i when w in
+    slot_at i (gat g w') = slot_at i (gat g w) \/ now_of 0 w <= slot_at i (gat g w').
+Proof. exact nested_schedule_not_before_root. Qed.
+Print Assumptions child_never_scheduled_before_root_time.
 
 (* the PULL: after a child cycle the owner is armed no later than the child's cached next time *)
 Theorem parent_due_no_later_pull :
